@@ -258,7 +258,7 @@ func c14Run(c *core.Ctx, idx int) {
 		}
 		defer os.RemoveAll(dir)
 		file = filepath.Join(dir, "list.txt")
-		if err = os.WriteFile(file, []byte(content), 0o644); err != nil {
+		if err = os.WriteFile(file, []byte(util.ChopEOL(content)), 0o644); err != nil {
 			c.Inconclusive("cannot write scratch file")
 
 			return
